@@ -374,7 +374,7 @@ def _pool_run(job):
 
 def signature(vec, sink, kind='cleartext'):
     """Facts about the witness that identify its kind (matched against known_findings.json)."""
-    return {'kind': kind, 'sink': sink, 'path': vec['path'], 'cls': vec['cls'],
+    return {'kind': kind, 'sink': sink, 'path': vec['path'], 'cls': vec['cls'] if sink == 'error_log' else None,
             'via_non_fconfig_dict': any(k in ('dict', 'adict') for k in [vec['logged_top']] + _seq(vec['logged_nest']))
             if sink == 'constructor_log' else None,
             'fault': vec['fault'] if sink == 'error_log' else None}
@@ -444,11 +444,13 @@ def submit(rep, pending):
 # ---------------------------------------------------------------------------------------------------------------------
 # TLC
 
-# the sinks at which each named deviation of Redact.tla shows clear text; the first four are in the code as it stands
+# the named deviations of Redact.tla (config Redact_def_<name>.cfg), the switch each one sets and the sinks at which it
+# shows clear text; 'code' = all the deviations the specification lists as present in the code (CodeDefects)
+DEFECT_OF = {'walk': 'walk_fconfig_only', 'facets': 'facets_unmasked', 'errors': 'errors_quote_clear',
+             'reader': 'reader_source_clear', 'writer': 'writer_log_clear'}
 DEFECT_SINKS = {'code': ('constructor_log', 'lineage_start', 'error_log'), 'walk': ('constructor_log',),
                 'facets': ('lineage_start',), 'errors': ('error_log',), 'reader': ('reader_log', 'meta_src'),
                 'writer': ('writer_log',)}
-IN_CODE = ('code', 'walk', 'facets', 'errors')
 
 def _counterexample(res):
     m = re.search(r'violated by the initial state:\s*\n(.*?)\n\s*\n', res.out, flags=re.S)
@@ -506,18 +508,19 @@ def selftest(vectors):
 
 # ---------------------------------------------------------------------------------------------------------------------
 
-def plan(vectors, chars, quick):
+def plan(vectors, chars, quick, seed=0):
     """Which (vector, scheme class, character class) combinations are executed.  Every structural case at least once;
-    the full product for shallow nestings and for the endpoint families; k rotating combinations for deep nestings."""
-    k_deep = 1 if quick else 3
+    the full scheme x character product for nestings up to `full_depth` and for the endpoint families; `k_deep` rotating
+    combinations for deeper nestings.  The seed only changes the secret tokens."""
+    full_depth, k_deep = (1, 1) if quick else (2, 3)
     jobs = []
     for vi, v in enumerate(vectors):
         combos = list(itertools.product(sorted(v['schemes']), sorted(chars)))
-        if v['key'] in ('option', 'hidden') and v['depth'] >= 2:
+        if v['key'] in ('option', 'hidden') and v['depth'] > full_depth:
             combos = [combos[(vi * 7 + j * 5) % len(combos)] for j in range(k_deep)]
             combos = list(dict.fromkeys(combos))
         for ci, (s, c) in enumerate(combos):
-            jobs.append((vi, v, s, c, (vi * 64 + ci) * 16 + 1))
+            jobs.append((vi, v, s, c, (vi * 64 + ci) * 16 + 1 + (seed % 2048) * 2 ** 28))
     return jobs
 
 
@@ -551,7 +554,8 @@ def run(ctx, only=None):
     rep.extra['selftest_checks'] = n_self
     counts = {'sink_status': {}, 'drift': {}}
     # ---- the deviations, each exhibited by TLC and replayed on the code
-    names = ['code', 'walk', 'facets', 'errors', 'reader', 'writer']
+    code_defects = set(data['code_defects'])
+    names = (['code'] if code_defects else []) + ['walk', 'facets', 'errors', 'reader', 'writer']
     cxs = _defect_runs(rep, names, vectors)
     rep.extra['tlc_counterexamples'] = {}
     for n, (cx, vec) in cxs.items():
@@ -559,7 +563,7 @@ def run(ctx, only=None):
             raise MachineryError(f'counterexample of Redact_def_{n} is not among the emitted vectors: {cx}')
         obs = execute(vec, cx['scheme'], cx['chars'], 0xc15)
         leaked = sorted({s for s, _ in obs['leaks'] if s in DEFECT_SINKS[n]})
-        in_code = n in IN_CODE
+        in_code = n == 'code' or DEFECT_OF[n] in code_defects
         rep.extra['tlc_counterexamples'][n] = {'case': {k: (list(x) if isinstance(x, tuple) else x) for k, x in cx.items()},
                                                'reproduced_on_code': bool(leaked), 'leaking_sinks': leaked}
         if in_code and not leaked:
@@ -567,7 +571,7 @@ def run(ctx, only=None):
         # a hypothetical deviation that does leak on the code is judged below like every other execution (the
         # enumeration contains the case)
     # ---- every vector on the real code
-    jobs = plan(vectors, chars, ctx.quick)
+    jobs = plan(vectors, chars, ctx.quick, int(ctx.seed))
     if only is not None:
         jobs = [j for j in jobs if only(j)]
     nproc = max(1, min(common.NCPU - 2, 12, len(jobs) // 200 + 1))
@@ -598,16 +602,20 @@ def run(ctx, only=None):
                      spec_predicted_leaks=sorted({f'{s}@{v["path"]}' + (f'/{v["fault"]}' if s == 'error_log' else '')
                                                   for v in vectors for s in SINKS if v['code'][s] == 'clear'}))
     submit(rep, pending)
-    # vacuity: every sink must have been seen populated (masked or clear) and every class / fault executed
-    for s in SINKS:
-        if s == 'lineage_other':
-            continue
-        if not any(counts['sink_status'].get(f'{s}:{st}') for st in ('masked', 'clear')):
-            raise MachineryError(f'sink {s} was never populated in {len(results)} executions: the harness does not '
-                                 f'reach it')
+    # vacuity: every sink must have been seen populated (masked or clear).  A sink the code no longer feeds is a loss of
+    # conformance, not a violation; nothing populated at all means the harness itself is broken.
+    populated = {s: any(counts['sink_status'].get(f'{s}:{st}') for st in ('masked', 'clear')) for s in SINKS}
+    rep.extra['sinks_populated'] = populated
+    if only is None:
+        if not any(populated.values()):
+            raise MachineryError(f'no sink was populated in {len(results)} executions: the harness reaches nothing')
+        for s in SINKS:
+            if s != 'lineage_other' and not populated[s]:
+                rep.drift_note(f'sink {s} was never populated in {len(results)} executions (the specification expects '
+                               f'it to show the masked URI)')
     rep.exhaustive = False
     rep.note(f'{len(vectors)} structural cases from TLC, {len(results)} executions '
-             f'({"every structural case once, full scheme x character product for depth <= 1 and the endpoint families" if ctx.quick else "full product for depth <= 1 and endpoint families, 3 rotating combinations deeper"})')
+             f'({"every structural case once, full scheme x character product for depth <= 1 and the endpoint families" if ctx.quick else "full scheme x character product for depth <= 2 and the endpoint families, 3 rotating combinations at depth 3"})')
     return rep.finish()
 
 
